@@ -116,9 +116,9 @@ static std::string fieldText(float v) {
 }
 static bool explainedByTrailingDigits(float got, float written) {
     const std::string f = fieldText(written);
-    // exponent extended beyond the float range
-    if (std::isinf(got) && f.find("E+") != std::string::npos && (got > 0) == (written > 0)) return true;
-    if (got == 0.0f && f.find("E-") != std::string::npos) return true;
+    // one or two stray digits already decide: a third one can only push the exponent further out of range (same inf / 0).
+    // A zero is not taken as evidence: zeros are written often, so a value read from a wrong place is the likelier explanation.
+    if (got == 0.0f) return false;
     for (int nd = 1; nd <= 2; ++nd)
         for (int d = 0; d < (nd == 1 ? 10 : 100); ++d) {
             char suf[8];
@@ -213,7 +213,7 @@ static std::vector<VecDef> genVectors(Rng& r, int nv, const std::array<int, 3>& 
             d.kw = PICK(r, RKW); d.num = 1 + (int)r.below(400); d.key = d.kw + ":" + std::to_string(d.num);
         } else if (kind < 80) {   // inter-region flow: NUMS = R1 + 32768 * (R2 + 10)
             d.kw = PICK(r, RFKW);
-            const int r1 = 1 + (int)r.below(120), r2 = 1 + (int)r.below(120);
+            const int r1 = 1 + (int)r.below(r.chance(0.1) ? 32767 : 120), r2 = 1 + (int)r.below(r.chance(0.1) ? 5000 : 120);
             d.num = r1 + 32768 * (r2 + 10);
             d.key = d.kw + ":" + std::to_string(r1) + "-" + std::to_string(r2);
         } else if (kind < 83) {   // aquifer
@@ -650,8 +650,8 @@ static bool examine(vh::Reporter& rep, Rng& rng, Monitor& m, const std::vector<c
     static int* const phase = (int*)mmap(nullptr, sizeof(int), PROT_READ | PROT_WRITE, MAP_SHARED | MAP_ANONYMOUS, -1, 0);
     const auto opened = [&] { *phase = 1; };
     int sectionsDone = 0;
-    const auto section = [&](const std::string& what, bool withBase, auto&& body) {
-        m.ctx = ctxOf(withBase);
+    const auto section = [&](const std::string& what, bool withBase, auto&& body, const std::string& ctx = std::string()) {
+        m.ctx = ctx.empty() ? ctxOf(withBase) : ctx;
         *phase = 0;
         const auto where = [&] { return *phase == 0 ? what.substr(0, what.find_first_of(".(")) + "(open)" : what; };
         const auto guarded = [&] {
@@ -748,8 +748,8 @@ static bool examine(vh::Reporter& rep, Rng& rng, Monitor& m, const std::vector<c
         });
         if (converted && depth > 0) {
             rep.cover("reader", reader + "+base");
+            // what ExtESmry makes of a chain of three is one question, whatever the layouts
             section(reader, true, [&] {
-                if (depth > 1) m.ctx = ":restart:nested";   // what ExtESmry makes of a chain of three is one question, whatever the layouts
                 ExtESmry x(esmry, true);
                 opened();
                 if (!o.directEsmry && (size_t)x.numberOfTimeSteps() == own.steps.size() && own.steps.size() != full.steps.size()) {
@@ -760,7 +760,7 @@ static bool examine(vh::Reporter& rep, Rng& rng, Monitor& m, const std::vector<c
                     x.loadData();
                     if (checkFrame(m, reader, x, full)) m.series(reader, full, m.listed(full.keys), [&](const std::string& k) -> const std::vector<float>& { return x.get(k); }, false);
                 }
-            });
+            }, depth > 1 ? ":restart:nested" : "");
         }
     }
     // ---- (3) direct seek per element: loadData(list) and lazy get(); last, because the formatted branch is the one
